@@ -589,6 +589,16 @@ var rTypeKeyWho = &Rule{
 				case gft:
 					n++
 					ok := fn == gtd || fn.Name() == "RegisterTypeMigration"
+					if !ok {
+						// a helper that resolves the raw name through the migration registry itself (the pair 'raw name +
+						// registry lookup' is what getTypeDetails is made of; who composes the helpers is R-OPAQUE-TRANSPORT's
+						// and R-MIGRATION's business)
+						sx.EachInstr(fn, func(in2 ssa.Instruction) {
+							if lk, isLk := in2.(*ssa.Lookup); isLk && isGlobalLoad(lk.X, "backwardRegistry") {
+								ok = true
+							}
+						})
+					}
 					if !ok && gtdReg.in[fn] {
 						// a helper of getTypeDetails that nobody else calls
 						ok = true
@@ -644,7 +654,9 @@ var rMarkLayers = &Rule{
 		}
 		etm := p.ExtNamed(load.ModPath+"/errorspb", "ErrorTypeMark")
 		nCalls, onPhi, onParam := 0, false, false
-		sx.EachInstr(gm, func(in ssa.Instruction) {
+		// (the chain loop may sit in an unexported helper that receives the error)
+		gmReg := regionOf(gm, gtm)
+		gmReg.each(func(in ssa.Instruction) {
 			switch x := in.(type) {
 			case *ssa.Call:
 				if sx.Callee(x) == gtm {
@@ -653,7 +665,9 @@ var rMarkLayers = &Rule{
 					case *ssa.Phi:
 						onPhi = true
 					case *ssa.Parameter:
-						onParam = true
+						if r := gmReg.resolve(x.Call.Args[0]); r == ssa.Value(gm.Params[0]) || x.Call.Args[0] == ssa.Value(gm.Params[0]) {
+							onParam = true
+						}
 					}
 				}
 			case *ssa.Alloc:
@@ -675,7 +689,11 @@ var rMarkLayers = &Rule{
 		})
 		// every layer contributes: in getMark's chain loop every way around the loop passes through the GetTypeMark call
 		// (no `continue` that skips a particular kind of layer)
-		for _, l := range naturalLoops(gm) {
+		var gmLoops []*natLoop
+		for _, f := range gmReg.funcs {
+			gmLoops = append(gmLoops, naturalLoops(f)...)
+		}
+		for _, l := range gmLoops {
 			var inLoop *ssa.Call
 			for b := range l.Body {
 				for _, in := range b.Instrs {
